@@ -7,6 +7,7 @@
 #include <unistd.h>
 #include <fcntl.h>
 #include <time.h>
+#include <sys/personality.h>
 #include "h.h"
 
 void sim_install_crash_handler(void);
@@ -142,7 +143,7 @@ static int cmd_batch(int argc, char **argv) {
 	double maxwall = argc > 10 ? atof(argv[10]) : 1e9, t0 = now_s();
 	static plan_t plan;
 	unsigned long long runs = 0, viol = 0, interesting = 0, sum_steps = 0, max_steps = 0, sum_simns = 0, sum_sw = 0, sum_dec = 0;
-	struct { char cls[48]; int n; } seen[32]; int nseen = 0;
+	struct { char cls[64]; int n; } seen[32]; int nseen = 0;
 	int samples = 0;
 	plan_init(&plan);
 	for (uint64_t k = 0; k < count; k++) {
@@ -163,11 +164,22 @@ static int cmd_batch(int argc, char **argv) {
 		sum_simns += res.sim_ns; sum_sw += res.switches;
 		{ const short *d; sum_dec += (unsigned long long)sim_decisions_taken(&d); }
 		if (res.interesting) { interesting++; if (hf) fwrite(&res.hash, 8, 1, hf); }
+		if ((runs & 255) == 0) {
+			/* cumulative snapshot: survives a later crash of this worker */
+			printf("SNAP\nSTAT runs=%llu violations=%llu interesting=%llu sum_steps=%llu max_steps=%llu sum_simns=%llu sum_switches=%llu sum_decisions=%llu wall=%.3f\n",
+			    runs, viol, interesting, sum_steps, max_steps, sum_simns, sum_sw, sum_dec, now_s() - t0);
+			for (int i = 0; i < g_nprobes; i++) printf("PROBE %s %llu %llu\n", g_probes[i].name, g_probes[i].runs, g_probes[i].total);
+			fflush(stdout);
+			if (hf) fflush(hf);
+		}
 		if (res.violated) {
 			int s;
 			viol++;
-			for (s = 0; s < nseen; s++) if (0 == strcmp(seen[s].cls, res.vclass)) break;
-			if (s == nseen && nseen < 32) { snprintf(seen[nseen].cls, 48, "%s", res.vclass); seen[nseen].n = 0; nseen++; }
+			char key[64];
+			const char *ctx = strstr(res.detail, "[ctx: ");
+			snprintf(key, sizeof(key), "%.30s%s%.24s", res.vclass, ctx ? "|" : "", ctx ? ctx + 6 : "");
+			for (s = 0; s < nseen; s++) if (0 == strcmp(seen[s].cls, key)) break;
+			if (s == nseen && nseen < 32) { snprintf(seen[nseen].cls, 64, "%s", key); seen[nseen].n = 0; nseen++; }
 			if (s < 32 && seen[s].n < 6) {
 				seen[s].n++;
 				printf("VIOL idx=%llu seed=%llu\n", (unsigned long long)idx, (unsigned long long)rs);
@@ -176,11 +188,11 @@ static int cmd_batch(int argc, char **argv) {
 				printf("ENDVIOL\n");
 				fflush(stdout);
 			} else {
-				printf("VIOLC idx=%llu seed=%llu class=%s\n", (unsigned long long)idx, (unsigned long long)rs, res.vclass);
+				printf("VIOLC idx=%llu seed=%llu class=%s detail=%s\n", (unsigned long long)idx, (unsigned long long)rs, res.vclass, res.detail);
 			}
 		}
 	}
-	printf("STAT runs=%llu violations=%llu interesting=%llu sum_steps=%llu max_steps=%llu sum_simns=%llu sum_switches=%llu sum_decisions=%llu wall=%.3f\n",
+	printf("SNAP\nSTAT runs=%llu violations=%llu interesting=%llu sum_steps=%llu max_steps=%llu sum_simns=%llu sum_switches=%llu sum_decisions=%llu wall=%.3f\n",
 	    runs, viol, interesting, sum_steps, max_steps, sum_simns, sum_sw, sum_dec, now_s() - t0);
 	for (int i = 0; i < g_nprobes; i++) printf("PROBE %s %llu %llu\n", g_probes[i].name, g_probes[i].runs, g_probes[i].total);
 	printf("DONE\n");
@@ -253,6 +265,16 @@ static int cmd_replay(int argc, char **argv) {
 }
 
 int main(int argc, char **argv) {
+	/* fixed address-space layout: when the code under test has undefined behaviour (use after free, dead
+	 * stack reads) what it then does depends on addresses; without ASLR a replay sees the same ones */
+	if (!getenv("LCBSIM_NOASLR")) {
+		int pers = personality(0xffffffff);
+		if (pers != -1 && !(pers & ADDR_NO_RANDOMIZE) && -1 != personality(pers | ADDR_NO_RANDOMIZE)) {
+			setenv("LCBSIM_NOASLR", "1", 1);
+			execv("/proc/self/exe", argv);
+		}
+		setenv("LCBSIM_NOASLR", "1", 1);
+	}
 	setvbuf(stdout, NULL, _IOLBF, 0);
 	sim_install_crash_handler();
 	if (argc < 2) { fprintf(stderr, "usage: vworker batch|serve|gen|replay ...\n"); return 2; }
